@@ -67,9 +67,28 @@ class Driver:
             [DRIVER], stdin=subprocess.PIPE, stdout=subprocess.PIPE
         )
         self.calls = 0
+        # a spread sample of the commands answered, per family, for the extraction cross-check
+        self.sample: dict[str, list[str]] = {}
+        self.seen: dict[str, int] = {}
+        self.sample_cap = 8
+
+    XC_FAMILIES = ("LK", "EN", "PA", "SB", "AU")
+
+    def _record(self, line: str) -> None:
+        fam = line[:2]
+        if fam not in self.XC_FAMILIES or len(line) > 6000:
+            return
+        n = self.seen.get(fam, 0)
+        self.seen[fam] = n + 1
+        bucket = self.sample.setdefault(fam, [])
+        if len(bucket) < self.sample_cap:
+            bucket.append(line)
+        elif n % 7 == 0:
+            bucket[(n // 7) % self.sample_cap] = line   # keep later commands in the sample too
 
     def ask(self, line: str) -> str:
         assert "\n" not in line
+        self._record(line)
         self.p.stdin.write(line.encode() + b"\n")
         self.p.stdin.flush()
         out = self.p.stdout.readline()
@@ -82,6 +101,8 @@ class Driver:
         """Pipeline many commands; a reader thread drains the replies so that neither pipe fills."""
         if not lines:
             return []
+        for ln in lines:
+            self._record(ln)
         import threading
 
         out: list[str] = []
